@@ -299,7 +299,7 @@ func (g *grounder) accessTerms(x *sx, nbase int) {
 					dup = true
 				}
 			}
-			if !dup && len(g.refs) < 14 {
+			if !dup && len(g.refs) < 14 && !strings.Contains(ref, "?") {
 				g.refs = append(g.refs, ref)
 			}
 			if x.list[2].isL {
@@ -309,7 +309,7 @@ func (g *grounder) accessTerms(x *sx, nbase int) {
 						dup = true
 					}
 				}
-				if !dup && len(g.sks) < 12 {
+				if !dup && len(g.sks) < 12 && !strings.Contains(idx, "?") {
 					g.sks = append(g.sks, skolem{idx, "Int"})
 				}
 			}
@@ -334,7 +334,7 @@ func (g *grounder) indexTerms(x *sx) {
 				dup = true
 			}
 		}
-		if !dup && len(g.refs) < 8 {
+		if !dup && len(g.refs) < 8 && !strings.Contains(s, "?") {
 			g.refs = append(g.refs, s)
 		}
 	}
@@ -350,8 +350,8 @@ func (g *grounder) indexTerms(x *sx) {
 				}
 			}
 			add := func(t string) {
-				if len(g.sks) >= 12 || t == "" || (t[0] >= '0' && t[0] <= '9') || strings.HasPrefix(t, "(- ") {
-					return
+				if len(g.sks) >= 12 || t == "" || (t[0] >= '0' && t[0] <= '9') || strings.HasPrefix(t, "(- ") || strings.Contains(t, "?") {
+					return // (bound variables are named x?N: a term under a binder is not a ground candidate)
 				}
 				for _, sk := range g.sks {
 					if sk.name == t {
@@ -562,6 +562,21 @@ func groundQuery(q string) (string, bool) {
 			}
 		}
 	}
+	if g.nskolem == 0 {
+		// a goal without bound variables of its own: the positions that matter are those the ground facts of the
+		// path mention (the current index of a range loop, ...)
+		n := 0
+		for i := 0; i < gi && n < 400; i++ {
+			c := cmds[i]
+			if !strings.HasPrefix(c, "(assert ") || strings.Contains(c, "(forall ") || strings.Contains(c, "(exists ") || !strings.Contains(c, "(select (select ") {
+				continue
+			}
+			if x, _, err := parseSx(c); err == nil {
+				g.indexTerms(x)
+				n++
+			}
+		}
+	}
 	// round 1 (candidates from the goal) only serves to find the further arrays / positions the hypotheses mention
 	{
 		nbase := len(g.sks)
@@ -584,7 +599,15 @@ func groundQuery(q string) (string, bool) {
 				fmt.Fprintf(&sb, "(declare-const %s %s)\n", sk.name, sk.sort)
 			}
 			sb.WriteString(late.String())
-			sb.WriteString("(assert (not " + goal.String() + "))\n")
+			// universal facts inside the goal itself (a quantified antecedent of an implication that is to be proved)
+			// are hypotheses of the negated goal: instantiate them like the others
+			ngoal := sxList(sxAtom("not"), goal)
+			if goal.hasQuant() {
+				if inst, ok := g.instantiate(ngoal, true, &budget); ok {
+					ngoal = inst
+				}
+			}
+			sb.WriteString("(assert " + ngoal.String() + ")\n")
 			continue
 		}
 		if strings.HasPrefix(c, "(get-value") || strings.HasPrefix(c, "(get-model") {
